@@ -8,6 +8,7 @@ pub mod c14;
 pub mod c15;
 pub mod c16;
 pub mod c17;
+pub mod replay;
 pub mod rules;
 pub mod sanit;
 pub mod rules_driver;
@@ -42,6 +43,5 @@ pub fn run_check(prop: &str, tier: Tier, seed: u64) -> i32 {
 }
 
 pub fn run_replay(prop: &str, path: &str) -> i32 {
-    println!("INCONCLUSIVE replay not implemented for {} ({})", prop, path);
-    2
+    replay::run(prop, path)
 }
